@@ -91,9 +91,25 @@ fn render_point(p: &Value) -> (String, String, Vec<String>) {
             let mut e = vec![];
             let mut names = vec![];
             let types = ["BOOLEAN", "OCTET STRING", "IA5String"];
+            let nest = p["nest"].as_str().unwrap_or("none");
             for j in 0..ninst {
                 let iname = format!("Mi{j}x");
                 let actual = |i: usize| -> String { if kinds[i] == "type" { types[(i + j) % 3].to_string() } else { (7 + 2 * (i + j)).to_string() } };
+                if nest != "none" {
+                    // the first type parameter is given an instance of the same template (with other actual parameters)
+                    let inner = |i: usize| -> String { if kinds[i] == "type" { types[(i + 1) % 3].to_string() } else { (20 + i).to_string() } };
+                    let inner_actuals: Vec<String> = (0..kinds.len()).map(&inner).collect();
+                    let (sug_inner, exp_inner) = (format!("{tname} {{ {} }}", inner_actuals.join(", ")), format!("SEQUENCE {{ {} }}", comps(&inner).join(", ")));
+                    let first = kinds.iter().position(|k| *k == "type").unwrap();
+                    let wrap = |x: &str| if nest == "constructed" { format!("SEQUENCE {{ x {x}, y NULL }}") } else { x.to_string() };
+                    let sug = |i: usize| -> String { if i == first { wrap(&sug_inner) } else { actual(i) } };
+                    let exp = |i: usize| -> String { if i == first { wrap(&exp_inner) } else { actual(i) } };
+                    let actuals: Vec<String> = (0..kinds.len()).map(&sug).collect();
+                    s.push(format!("{iname} ::= {tname} {{ {} }}", actuals.join(", ")));
+                    e.push(format!("{iname} ::= SEQUENCE {{ {} }}", comps(&exp).join(", ")));
+                    names.push(iname);
+                    continue;
+                }
                 let actuals: Vec<String> = (0..kinds.len()).map(&actual).collect();
                 s.push(format!("{iname} ::= {tname} {{ {} }}", actuals.join(", ")));
                 e.push(format!("{iname} ::= SEQUENCE {{ {} }}", comps(&actual).join(", ")));
@@ -112,6 +128,24 @@ fn render_point(p: &Value) -> (String, String, Vec<String>) {
         "classfield" => {
             let cname = if early { "AACLS" } else { "ZZCLS" };
             let cls = format!("{cname} ::= CLASS {{ &id INTEGER (0..255) UNIQUE, &Type }}");
+            let host = p["host"].as_str().unwrap_or("plain");
+            if host != "plain" {
+                // F stands for the field type in the sugared module and for the field's type in the expanded one
+                let body = match host {
+                    "set" => "Mfld ::= SET { f F, g BOOLEAN DEFAULT FALSE }",
+                    "choice" => "Mfld ::= CHOICE { f F, g BOOLEAN }",
+                    "seqof" => "Mfld ::= SEQUENCE OF F",
+                    "setof" => "Mfld ::= SET OF F",
+                    "nested_seq_in_setof" => "Mfld ::= SET OF SEQUENCE { k F, v BOOLEAN }",
+                    "seq_with_set_sibling" => "Mfld ::= SEQUENCE { f F, extra SET { a INTEGER, b BOOLEAN OPTIONAL } }",
+                    "seq_with_ext_choice_sibling" => "Mfld ::= SEQUENCE { f F, pick CHOICE { x INTEGER, ..., y BOOLEAN, z NULL } }",
+                    "choice_with_additions" => "Mfld ::= CHOICE { f F, g BOOLEAN, ..., h NULL, i IA5String }",
+                    "seq_with_constrained_siblings" => "Small ::= INTEGER (0..100)\nMfld ::= SEQUENCE { f F, n INTEGER (0..7), r Small (0..5) DEFAULT 3, s IA5String (SIZE (1..4)) OPTIONAL, ..., again Mfld OPTIONAL }",
+                    _ => "Mfld ::= CHOICE { f F, group SET { x INTEGER, y BOOLEAN } }",
+                };
+                let sub = |with: &str| body.replace(" F,", &format!(" {with},")).replace(" F }", &format!(" {with} }}")).replace("OF F", &format!("OF {with}"));
+                return (format!("{cls}\n{}", sub(&format!("{cname}.&id"))), format!("{cls}\n{}", sub("INTEGER (0..255)")), vec!["Mfld".into()]);
+            }
             if p["ascomp"].as_bool().unwrap() {
                 (format!("{cls}\nMfld ::= SEQUENCE {{ f {cname}.&id }}"), format!("{cls}\nMfld ::= SEQUENCE {{ f INTEGER (0..255) }}"), vec!["Mfld".into()])
             } else {
